@@ -3,5 +3,8 @@ CONSTANTS
   G = {1, 2}
   Ops = 2
   PutEarly = TRUE
-INVARIANTS Independent Exclusive
+  ResetOnError = TRUE
+  LazyInit = "once"
+  MayFail = TRUE
+INVARIANTS Independent Exclusive HeldNotPooled PoolClean NoBlindRead
 CHECK_DEADLOCK FALSE
